@@ -71,6 +71,15 @@ def main():
                         d[1] = 0
                     U, S, V = svd.svd(Diagonal(d), n)
                     check(np.diag(d), U, S, V, n, f"svd(Diagonal({np.round(d, 3).tolist()}), k={n})", True)
+    elif rule == "lanczos-rank":
+        # a rank-deficient operator with every triplet requested: one singular value is zero
+        u, _ = np.linalg.qr(rnd(6, 4))
+        v, _ = np.linalg.qr(rnd(4, 4))
+        M = (u * np.array([3.0, 2.0, 1.0, 0.0])) @ v.T
+        for k in (3, 4):
+            inp = f"svd(Dense 6x4 with singular values (3, 2, 1, 0), k={k}, 'LM', Lanczos(max_iters=50, tol=1e-12))"
+            U, S, V = svd.svd(Dense(M), k, "LM", Lanczos(max_iters=50, tol=1e-12))
+            check(M, U, S, V, k, inp, k == 4)
     elif rule == "lanczos":
         for (m, n) in ((6, 6), (9, 5), (5, 9), (12, 7), (4, 11), (1, 1), (3, 1), (1, 3)):
             for cplx in (False, True):
